@@ -250,15 +250,30 @@ class Property:
             raise KeyError(f"no proven lemma step named {key}; have {sorted(self.closed_named)}")
         return LemmaCtx.instance(self.closed_named[key], *terms)
 
+    def generic_seq_mem(self, sort):
+        """The definition of `x in seq` (engine atom seq_mem(arr, n, x), witness function) for EVERY array
+        and length of this element sort, as quantified hints.  (The engine otherwise states it per concrete
+        sequence; contracts that quantify over sequences -- e.g. `the tensors of the q-th node` -- need it
+        in general form.)  It is a definition: seq_mem occurs nowhere else with another meaning."""
+        A = z3.ArraySort(z3.IntSort(), sort)
+        f = z3.Function(f"seq_mem.{sort}", A, z3.IntSort(), sort, z3.BoolSort())
+        w = z3.Function(f"seq_mem.witness.{sort}", A, z3.IntSort(), sort, z3.IntSort())
+        a = z3.Const("gm_a", A)
+        n, j = z3.Ints("gm_n gm_j")
+        y = z3.Const("gm_y", sort)
+        self.hint(f"def.seq_mem.{sort}.witness", z3.ForAll([a, n, y], z3.Implies(f(a, n, y), z3.And(w(a, n, y) >= 0, w(a, n, y) < n, z3.Select(a, w(a, n, y)) == y)), patterns=[f(a, n, y)]))
+        self.hint(f"def.seq_mem.{sort}.member", z3.ForAll([a, n, j, y], z3.Implies(z3.And(j >= 0, j < n), f(a, n, z3.Select(a, j))), patterns=[z3.MultiPattern(z3.Select(a, j), f(a, n, y))]))
+
     def assume_note(self, text):
         if text not in self.assumptions:
             self.assumptions.append(text)
 
     # --- lookup -------------------------------------------------------------------
     def lookup_callee(self, name, relfile):
-        cands = [s for s in self.specs if (s.qualname == name or s.name == name) and s.cls is None]
+        callable_ = [s for s in self.specs if s.slice is None]  # a slice (statement range) is never called
+        cands = [s for s in callable_ if (s.qualname == name or s.name == name) and s.cls is None]
         if not cands:
-            cands = [s for s in self.specs if s.qualname == name]
+            cands = [s for s in callable_ if s.qualname == name]
         same = [s for s in cands if s.relfile == relfile]
         cands = same or cands
         return cands[0] if cands else None
